@@ -30,7 +30,10 @@ EXHAUSTIVE = {"quick": False, "thorough": False}
 PROTECTED = ("markup", "literalLayout", "objectName", "attributeName", "para")
 # (ordinary names, among them names that are a beginning or an extension of a protected name: "attribute" is an EML element)
 OTHER = ("dataset", "title", "section", "entityName", "value", "description", "emphasis", "x", "attribute", "attributeList", "object", "literal",
-         "mark", "par", "paragraph", "markups", "objectNames", "p", "a")
+         "mark", "par", "paragraph", "markups", "objectNames", "p", "a",
+         # the protected names in other letter cases (DocBook writes literallayout) and other vocabularies' names for the same things
+         "literallayout", "LiteralLayout", "Para", "PARA", "objectname", "attributename", "Markup", "MARKUP", "programlisting", "screen", "pre", "code",
+         "simpara", "formalpara")
 XSI = "http://www.w3.org/2001/XMLSchema-instance"
 STR_ALPH = ["a", "b", "Z", "0", " ", " ", " ", "\t", "\n", "\xa0", "\xa0", " ", " ", "\x85", "​", "é", "\U0001F600", ".", "<", "&", "e\u0301", "\u212b"]
 XML_WS = " \t\r\n"
